@@ -81,9 +81,9 @@ type Tab struct {
 	Ext     string
 	LoadSQL string
 	Cols    []string
-	Kind   map[string]int
-	NextID int
-	fresh  int
+	Kind    map[string]int
+	NextID  int
+	fresh   int
 }
 
 func (t *Tab) FileName() string {
@@ -1360,10 +1360,185 @@ func dropNullIDs(ids []string) []string {
 	return out
 }
 
+// usingJoin: the pieces of `a [INNER|LEFT|RIGHT|FULL] JOIN b USING (U…)` / `a NATURAL … JOIN b`
+type usingJoin struct {
+	kind    string   // inner | left | right | full
+	natural bool     // NATURAL: U = the columns of a, in a's order, that b has too
+	U       []string // the join columns in the order they are written
+	fromSQL string
+	tok     string // "kind A B U" of the op line
+}
+
+func mkUsing(a, b *Tab, kind string, natural bool, U []string, outerKw bool) usingJoin {
+	u := usingJoin{kind: kind, natural: natural, U: U}
+	kw := map[string]string{"inner": "", "left": "LEFT ", "right": "RIGHT ", "full": "FULL "}[kind]
+	if outerKw && kind != "inner" {
+		kw += "OUTER "
+	}
+	if natural {
+		u.fromSQL = fmt.Sprintf("%s NATURAL %sJOIN %s", a.Name, kw, b.Name)
+		u.tok = fmt.Sprintf("%s %s %s natural", kind, a.Name, b.Name)
+	} else {
+		u.fromSQL = fmt.Sprintf("%s %sJOIN %s USING (%s)", a.Name, kw, b.Name, strings.Join(U, ", "))
+		u.tok = fmt.Sprintf("%s %s %s %d %s", kind, a.Name, b.Name, len(U), strings.Join(U, " "))
+	}
+	return u
+}
+
+// commonCols: the columns of a, in a's order, that b has too
+func commonCols(a, b *Tab) []string {
+	var out []string
+	for _, c := range a.Cols {
+		if inList(c, b.Cols) {
+			out = append(out, c)
+		}
+	}
+	return out
+}
+
+// usingRefs: the columns of both tables as they must be written over a USING / NATURAL join: the join columns WITHOUT a
+// table (the merged column; `a.k` no longer exists), every other column with its table
+func usingRefs(a, b *Tab, U []string) []cref {
+	var out []cref
+	for _, c := range U {
+		out = append(out, cref{tbl: a.Name, name: c, kind: a.Kind[c], q: false})
+	}
+	for _, t := range []*Tab{a, b} {
+		for _, c := range t.Cols {
+			if !inList(c, U) {
+				out = append(out, cref{tbl: t.Name, name: c, kind: t.Kind[c], q: true})
+			}
+		}
+	}
+	return out
+}
+
+// genUsing: multi-table UPDATE / DELETE over a USING / NATURAL join.  The SET columns are columns of the target that are no
+// join columns (a join column cannot be named as a column of its table any more) — before and after the join columns in
+// their table, whatever the position of the join columns.
+func (r *Runner) genUsing(a, b *Tab, f *Fault, update bool) *Stmt {
+	g := r.G
+	common := commonCols(a, b)
+	if len(common) == 0 {
+		return nil
+	}
+	natural := g.Intn(3) == 0
+	U := common
+	if !natural {
+		perm := g.Perm(len(common))
+		n := 1 + g.Intn(len(common))
+		U = nil
+		for _, k := range perm[:n] {
+			U = append(U, common[k])
+		}
+	}
+	uj := mkUsing(a, b, g.Pick("inner", "inner", "left", "right", "full"), natural, U, g.Intn(3) == 0)
+	cs := usingRefs(a, b, U)
+	idRef := Col(a.Name, "id", !inList("id", U))
+	tabs := []*Tab{a}
+	switch g.Intn(4) {
+	case 0:
+		tabs = []*Tab{b}
+	case 1:
+		tabs = []*Tab{a, b}
+	case 2:
+		if g.Intn(2) == 0 {
+			tabs = []*Tab{b, a}
+		}
+	}
+	var tn []string
+	for _, t := range tabs {
+		tn = append(tn, t.Name)
+	}
+	cond := True()
+	switch g.Intn(3) {
+	case 0:
+		cond = r.cond(cs, 1)
+	case 1:
+		// only the joined records in which every target has a record
+		for i, t := range tabs {
+			for _, c := range t.Cols {
+				if !inList(c, U) {
+					e := Not(IsNull(Col(t.Name, c, true)))
+					if i == 0 {
+						cond = e
+					} else {
+						cond = Bin("AND", "and", cond, e)
+					}
+					break
+				}
+			}
+		}
+	}
+	if fk(f) == "where" {
+		cond = Bin("=", "eq", failAt(idRef, f.Row), Int(1))
+	}
+	kind := "deletem"
+	if update {
+		kind = "updatem"
+	}
+	s := &Stmt{Kind: kind, Targets: tn, Fault: f, Outer: "using:" + uj.kind}
+	setCols := map[string][]string{}
+	if update {
+		var ss, st []string
+		for i, t := range tabs {
+			var free []string
+			for _, c := range t.dataCols() {
+				if !inList(c, U) {
+					free = append(free, c)
+				}
+			}
+			if len(free) == 0 {
+				return nil
+			}
+			c := free[g.Intn(len(free))]
+			e := r.valueEx(t.Kind[c], cs, false)
+			if i == 0 && fk(f) == "div" {
+				e = failAt(idRef, f.Row)
+			}
+			ss = append(ss, t.Name+"."+c+" = "+e.SQL)
+			st = append(st, t.Name+" "+c+" "+e.Tok)
+			setCols[t.Name] = append(setCols[t.Name], c)
+		}
+		s.SQL = fmt.Sprintf("UPDATE %s SET %s FROM %s WHERE %s", strings.Join(tn, ", "), strings.Join(ss, ", "), uj.fromSQL, cond.SQL)
+		s.Op = fmt.Sprintf("updateu %d %s %s %d %s %s", len(tn), strings.Join(tn, " "), uj.tok, len(st), strings.Join(st, " "), cond.Tok)
+	} else {
+		s.SQL = fmt.Sprintf("DELETE %s FROM %s WHERE %s", strings.Join(tn, ", "), uj.fromSQL, cond.SQL)
+		s.Op = fmt.Sprintf("deleteu %d %s %s %s", len(tn), strings.Join(tn, " "), uj.tok, cond.Tok)
+	}
+	if f != nil || inList("id", U) {
+		// (with `id` among the join columns a target's ids cannot be selected separately: `t.id` does not exist and the
+		// merged `id` is the other side's where the target is padded — the comparison with the model stands alone)
+		return s
+	}
+	s.MatchSQL = map[string]string{}
+	for _, n := range tn {
+		s.MatchSQL[n] = fmt.Sprintf("SELECT %s.id FROM %s WHERE %s", n, uj.fromSQL, cond.SQL)
+	}
+	s.Check = func(before, after map[string]*Snap, matched map[string][]string, counts map[string]int) []string {
+		var bad []string
+		for _, n := range tn {
+			if update {
+				bad = append(bad, updateFrame(n, setCols[n], before, after, matched, counts)...)
+			} else {
+				bad = append(bad, deleteFrame(n, before, after, matched, counts)...)
+			}
+		}
+		return bad
+	}
+	return s
+}
+
 func (r *Runner) genUpdateMulti(a, b *Tab, f *Fault) *Stmt {
 	g := r.G
 	if len(a.dataCols()) == 0 {
 		return nil
+	}
+	// a fifth of the statements join with USING (…) / NATURAL: the joined view then has another column layout
+	if g.Intn(5) == 0 && fk(f) != "dup" && fk(f) != "field" {
+		if s := r.genUsing(a, b, f, true); s != nil {
+			return s
+		}
 	}
 	targets := []*Tab{a}
 	if g.Intn(3) == 0 && len(b.dataCols()) > 0 {
@@ -1454,6 +1629,11 @@ func (r *Runner) genUpdateMulti(a, b *Tab, f *Fault) *Stmt {
 
 func (r *Runner) genDeleteMulti(a, b *Tab, f *Fault) *Stmt {
 	g := r.G
+	if g.Intn(6) == 0 {
+		if s := r.genUsing(a, b, f, false); s != nil {
+			return s
+		}
+	}
 	tn := []string{a.Name}
 	if g.Intn(3) == 0 {
 		tn = append(tn, b.Name)
@@ -3535,25 +3715,24 @@ func AttrCorpus(g *hc.Gen, o *hc.Out, root string) {
 	}
 }
 
-// FormatCorpus (c08, first on every run): tables of EVERY file format with their format attributes — fixed-length with
-// explicit delimiter positions (given by the table function or by ALTER TABLE SET; with and without header line),
-// single-line fixed-length; CSV with another delimiter, enclose-all, CRLF, Shift-JIS, UTF-8 with BOM, without header line; TSV; JSON
-// pretty-printed / with hexadecimal escapes; JSON Lines; LTSV — and EVERY statement kind that can fail part-way: ALTER
-// TABLE ADD with a default failing at the first / a middle / the last record or a duplicate after a valid name, DROP and
-// RENAME with a missing column after a valid one, SET <attribute> with invalid values, UPDATE / DELETE failing at record
-// k, INSERT / REPLACE failing at the k-th row, ADD and UPDATE cancelled at the k-th context check.  One episode per
-// (table, statement): first access through the table function (both runs), on odd episodes an earlier successful change
-// (both runs), the failing statement (main run only) with records, marks and ALL attributes (FileInfo) compared around it
-// and with the control run, a later successful change of the same table (both runs), COMMIT (both) — and the bytes of
-// every file compared with the control run's.
-func FormatCorpus(g *hc.Gen, o *hc.Out, root string) {
-	type ft struct {
-		name, file, content, load, idc, vc string
-		pre                                []string // attribute changes that succeed, run in both runs at the start of every episode
-	}
+// fmtTab: a table of one file format with its format attributes (FormatCorpus, FormatCommitCorpus)
+type fmtTab struct {
+	name, file, content, load, idc, vc string
+	pre                                []string // attribute changes that succeed, run at the start of every episode
+}
+
+// noHeader: the file has no header line (column names c1, c2 … on every read)
+func (t fmtTab) noHeader() bool { return t.idc == "c1" }
+
+// fixedExplicit: fixed-length with explicit delimiter positions (a change of the column set makes csvq measure them anew)
+func (t fmtTab) fixedExplicit() bool {
+	return strings.HasSuffix(t.file, ".txt") && t.name != "fs"
+}
+
+func formatTabs() []fmtTab {
 	fixed := "id    v         \n1     a         \n2     bb        \n3     c         \n4     dd        \n"
 	fixedNH := "1     a         \n2     bb        \n3     c         \n4     dd        \n"
-	tabs := []ft{
+	return []fmtTab{
 		{"fx", "fx.txt", fixed, "SELECT * FROM FIXED('[6, 16]', `fx.txt`);", "id", "v", nil},
 		{"fn", "fn.txt", fixedNH, "SELECT * FROM FIXED('[6, 16]', `fn.txt`, 'UTF8', TRUE);", "c1", "c2", nil},
 		{"fs", "fs.txt", "1  a  2  bb 3  c  4  dd ", "SELECT * FROM FIXED('S[3, 6]', `fs.txt`);", "c1", "c2", nil},
@@ -3570,6 +3749,233 @@ func FormatCorpus(g *hc.Gen, o *hc.Out, root string) {
 		{"jl", "jl.jsonl", "{\"id\":1,\"v\":\"a\"}\n{\"id\":2,\"v\":\"bb\"}\n{\"id\":3,\"v\":\"c\"}\n{\"id\":4,\"v\":\"dd\"}\n", "SELECT * FROM jl;", "id", "v", nil},
 		{"lt", "lt.ltsv", "id:1\tv:a\nid:2\tv:bb\nid:3\tv:c\nid:4\tv:dd\n", "SELECT * FROM lt;", "id", "v", nil},
 	}
+}
+
+// cellAsText: a cell as the text a file holds for it (NULL = no text; an integral float as the integer)
+func cellAsText(p value.Primary) string {
+	switch v := p.(type) {
+	case *value.Null:
+		return ""
+	case *value.String:
+		return v.Raw()
+	case *value.Integer:
+		return strconv.FormatInt(v.Raw(), 10)
+	case *value.Float:
+		f := v.Raw()
+		if f == float64(int64(f)) && f < 1e15 && f > -1e15 {
+			return strconv.FormatInt(int64(f), 10)
+		}
+		return strconv.FormatFloat(f, 'g', -1, 64)
+	}
+	return hc.EncVal(p)
+}
+
+// TextTable: header and records of a table as texts
+type TextTable struct {
+	Header []string
+	Rows   [][]string
+}
+
+func textTableOf(pr *hc.Proc, name string) (*TextTable, error) {
+	v, err := pr.Query("SELECT * FROM " + name)
+	if err != nil {
+		return nil, err
+	}
+	t := &TextTable{}
+	for _, h := range v.Header {
+		t.Header = append(t.Header, h.Column)
+	}
+	for i := 0; i < v.RecordLen(); i++ {
+		row := make([]string, len(t.Header))
+		for j := range row {
+			row[j] = cellAsText(hc.ViewCell(v, i, j))
+		}
+		t.Rows = append(t.Rows, row)
+	}
+	return t, nil
+}
+
+func (t *TextTable) dump(withHeader bool) string {
+	rows := make([]string, len(t.Rows))
+	for i, r := range t.Rows {
+		rows[i] = strings.Join(r, "|")
+	}
+	h := fmt.Sprintf("%d columns", len(t.Header))
+	if withHeader {
+		h = strings.Join(t.Header, ",")
+	}
+	return "[" + h + "] " + strings.Join(rows, " ; ")
+}
+
+// readBack: what a FRESH process reads from the committed file of a format table, through the same first access (for a
+// fixed-length table whose column set was changed: with measured positions — csvq wrote it with measured positions)
+func readBack(dir string, t fmtTab, columnsChanged bool) (*TextTable, string, error) {
+	pr := hc.NewProc(dir)
+	defer pr.Close()
+	load := t.load
+	if columnsChanged && t.fixedExplicit() {
+		load = strings.Replace(strings.Replace(load, "'[6, 16]'", "'SPACES'", 1), "FIXED('SPACES', `fp.txt`)", "FIXED('SPACES', `fp.txt`)", 1)
+	}
+	if _, err := pr.Exec(load); err != nil {
+		return nil, load, err
+	}
+	tt, err := textTableOf(pr, t.name)
+	return tt, load, err
+}
+
+// commitStmt: a statement of the FormatCommitCorpus
+type commitStmt struct {
+	kind, sql      string
+	columnsChanged bool
+	headerChanged  bool // the change is in the column NAMES only: invisible in a file without header line
+	lineBreak      string
+}
+
+// FormatCommitCorpus (c05, first on every run): `committed_file_is_what_the_session_saw`.  Tables of EVERY file format with
+// their format attributes (the 15 tables of the FormatCorpus) × every kind of successful change — ALTER TABLE ADD at the end
+// / FIRST / AFTER a column, DROP, RENAME, SET LINE_BREAK, INSERT, UPDATE, DELETE, REPLACE — as the FIRST, SECOND and THIRD
+// change of the table in its transaction (zero, one, two earlier successful changes of the same table), then COMMIT; a
+// FRESH process reads the committed file through the same first access, and header, number of records and every cell (as
+// text) must be what `SELECT *` showed in the session right before COMMIT (for SET LINE_BREAK: the line break the fresh
+// process detects).  COMMIT encodes every table with the FileInfo that the table's FIRST change registered: a later
+// statement working on a private copy of the attributes (C05-m18, C02-m13) is invisible in the session and lost in the file.
+func FormatCommitCorpus(g *hc.Gen, o *hc.Out, root string) {
+	dir := filepath.Join(root, "corpus-format-commit")
+	_ = os.MkdirAll(dir, 0o755)
+	defer os.RemoveAll(dir)
+	pr := hc.NewProc(dir)
+	defer func() { pr.Close() }()
+	r := &Runner{G: g, O: o, CPU: 1, Dir: dir}
+	for _, t := range formatTabs() {
+		n, id, v := t.name, t.idc, t.vc
+		stmts := []commitStmt{
+			{"add_last", fmt.Sprintf("ALTER TABLE %s ADD (zz DEFAULT 'd');", n), true, false, ""},
+			{"add_first", fmt.Sprintf("ALTER TABLE %s ADD (zz DEFAULT 'd') FIRST;", n), true, false, ""},
+			{"add_middle", fmt.Sprintf("ALTER TABLE %s ADD (zy DEFAULT 'm', zz DEFAULT 'd') AFTER %s;", n, id), true, false, ""},
+			{"rename", fmt.Sprintf("ALTER TABLE %s RENAME %s TO w;", n, v), false, true, ""},
+			{"insert", fmt.Sprintf("INSERT INTO %s VALUES ('7', 'x'), ('9', 'y');", n), false, false, ""},
+			{"update", fmt.Sprintf("UPDATE %s SET %s = 'uu' WHERE %s = 2;", n, v, id), false, false, ""},
+			{"delete", fmt.Sprintf("DELETE FROM %s WHERE %s = 3;", n, id), false, false, ""},
+			{"replace", fmt.Sprintf("REPLACE INTO %s (%s, %s) USING (%s) VALUES ('1', 'r'), ('6', 'n');", n, id, v, id), false, false, ""},
+		}
+		if n != "lt" { // (a single-field LTSV record is skipped by the reader: known finding F26)
+			stmts = append(stmts, commitStmt{"drop", fmt.Sprintf("ALTER TABLE %s DROP %s;", n, v), true, false, ""})
+		}
+		switch n {
+		case "sc", "ts", "lt", "fx", "nh", "ea":
+			stmts = append(stmts, commitStmt{"set_line_break", fmt.Sprintf("ALTER TABLE %s SET LINE_BREAK TO 'CRLF';", n), false, false, "CRLF"})
+		case "cr":
+			stmts = append(stmts, commitStmt{"set_line_break", fmt.Sprintf("ALTER TABLE %s SET LINE_BREAK TO 'LF';", n), false, false, "LF"})
+		}
+		earlier := []string{
+			fmt.Sprintf("UPDATE %s SET %s = 'e1' WHERE %s = 4;", n, v, id),
+			fmt.Sprintf("INSERT INTO %s VALUES ('8', 'e2');", n),
+		}
+		for _, st := range stmts {
+			ks := []int{0, 1, 2}
+			if !st.columnsChanged && !st.headerChanged && st.lineBreak == "" {
+				ks = []int{0, 2}
+			}
+			for _, k := range ks {
+				_ = os.WriteFile(filepath.Join(dir, t.file), []byte(t.content), 0o644)
+				prog := []string{t.load}
+				prog = append(prog, t.pre...)
+				prog = append(prog, earlier[:k]...)
+				prog = append(prog, st.sql)
+				failed := ""
+				for _, sql := range prog {
+					if _, err := pr.Exec(sql); err != nil {
+						failed = sql + ": " + err.Error()
+						break
+					}
+				}
+				o.Count("corpus:format_commit")
+				rp := map[string]interface{}{"table": t.file, "file_before": clip(t.content), "transaction": prog, "earlier_changes_of_the_table": k, "statement": st.sql}
+				if failed != "" {
+					rp["failed"] = failed
+					o.Law("corpus_statement_failed", rp)
+					_, _ = pr.Exec("ROLLBACK;")
+					return
+				}
+				saw, err := textTableOf(pr, n)
+				if err != nil {
+					rp["failed"] = "SELECT *: " + err.Error()
+					o.Law("corpus_statement_failed", rp)
+					return
+				}
+				lbSession := ""
+				if st.lineBreak != "" {
+					lbSession = lineBreakOf(r.Attrs(pr, n))
+				}
+				if _, err := pr.Exec("COMMIT;"); err != nil {
+					rp["commit_error"] = err.Error()
+					rp["session_table_before_commit"] = saw.dump(true)
+					o.Law("committed_file_is_what_the_session_saw", rp)
+					o.NonTrivial("format_commit:" + n + ":" + st.kind + ":commit_failed")
+					// (the transaction is still open with its changes: a new processor for the next episode)
+					pr.Close()
+					pr = hc.NewProc(dir)
+					continue
+				}
+				got, load, err := readBack(dir, t, st.columnsChanged)
+				b, _ := os.ReadFile(filepath.Join(dir, t.file))
+				rp["committed_file"], rp["read_back_through"] = clip(string(b)), load
+				withHeader := !t.noHeader()
+				rp["session_table_before_commit"] = saw.dump(withHeader)
+				law := "committed_file_is_what_the_session_saw"
+				if t.name == "fs" && st.columnsChanged {
+					// known finding F113: a single-line fixed-length table has no way to take a changed column set (its positions
+					// cannot be measured anew): COMMIT writes with the old positions — under its own name, so that it cannot
+					// stand in front of another table's report
+					law = "single_line_fixed_column_change_lost_at_commit"
+				}
+				switch {
+				case err != nil:
+					rp["read_back_error"] = err.Error()
+					o.Law(law, rp)
+				case got.dump(withHeader) != saw.dump(withHeader):
+					rp["table_read_back"] = got.dump(withHeader)
+					o.Law(law, rp)
+				case st.lineBreak != "":
+					want := "\n"
+					if st.lineBreak == "CRLF" {
+						want = "\r\n"
+					}
+					body := string(b)
+					if lbSession != st.lineBreak || !strings.Contains(body, want) || (st.lineBreak == "LF" && strings.Contains(body, "\r\n")) {
+						rp["line_break_in_session"], rp["line_break_set"] = lbSession, st.lineBreak
+						o.Law("committed_file_is_what_the_session_saw", rp)
+					}
+				}
+				o.NonTrivial(fmt.Sprintf("format_commit:%s:%s:%d", n, st.kind, k))
+			}
+		}
+	}
+}
+
+var lineBreakRe = regexp.MustCompile(`LineBreak: (\w+)`)
+
+func lineBreakOf(attrs string) string {
+	if m := lineBreakRe.FindStringSubmatch(attrs); m != nil {
+		return m[1]
+	}
+	return ""
+}
+
+// FormatCorpus (c08, first on every run): tables of EVERY file format with their format attributes — fixed-length with
+// explicit delimiter positions (given by the table function or by ALTER TABLE SET; with and without header line),
+// single-line fixed-length; CSV with another delimiter, enclose-all, CRLF, Shift-JIS, UTF-8 with BOM, without header line; TSV; JSON
+// pretty-printed / with hexadecimal escapes; JSON Lines; LTSV — and EVERY statement kind that can fail part-way: ALTER
+// TABLE ADD with a default failing at the first / a middle / the last record or a duplicate after a valid name, DROP and
+// RENAME with a missing column after a valid one, SET <attribute> with invalid values, UPDATE / DELETE failing at record
+// k, INSERT / REPLACE failing at the k-th row, ADD and UPDATE cancelled at the k-th context check.  One episode per
+// (table, statement): first access through the table function (both runs), zero / one / two earlier successful changes of
+// the same table (both runs), the failing statement (main run only) with records, marks and ALL attributes (FileInfo)
+// compared around it and with the control run, a later successful change of the same table (both runs), COMMIT (both) —
+// the bytes of every file compared with the control run's, and the committed file read back by a fresh process compared
+// with the table the session showed before COMMIT (law committed_file_is_what_the_session_saw).
+func FormatCorpus(g *hc.Gen, o *hc.Out, root string) {
+	tabs := formatTabs()
 	dirA, dirB := filepath.Join(root, "corpus-format"), filepath.Join(root, "corpus-format-twin")
 	for _, d := range []string{dirA, dirB} {
 		_ = os.MkdirAll(d, 0o755)
@@ -3642,8 +4048,14 @@ func FormatCorpus(g *hc.Gen, o *hc.Out, root string) {
 					return
 				}
 			}
-			if ep%2 == 1 {
+			// zero, one or two earlier successful changes of the same table in this transaction
+			if ep%3 >= 1 {
 				if !both(fmt.Sprintf("UPDATE %s SET %s = 'p%d' WHERE %s = 3;", n, v, ep, id)) {
+					return
+				}
+			}
+			if ep%3 == 2 {
+				if !both(fmt.Sprintf("INSERT INTO %s VALUES ('%d', 'q%d');", n, 100+ep, ep)) {
 					return
 				}
 			}
@@ -3705,8 +4117,27 @@ func FormatCorpus(g *hc.Gen, o *hc.Out, root string) {
 			if !both(fmt.Sprintf("UPDATE %s SET %s = 'u%d' WHERE %s = 2;", n, v, ep, id)) {
 				return
 			}
+			saw, sawErr := textTableOf(r.Pr, n)
 			if !both("COMMIT;") {
 				return
+			}
+			// the committed file, read back by a fresh process, is the table the session showed before COMMIT
+			colsChanged := err == nil && strings.HasPrefix(f.kind, "add")
+			if sawErr == nil && !(t.name == "fs" && colsChanged) {
+				got, load, e := readBack(dirA, t, colsChanged)
+				withHeader := !t.noHeader()
+				if e != nil || got.dump(withHeader) != saw.dump(withHeader) {
+					rp := map[string]interface{}{"table": t.file, "first_access": t.load, "attribute_changes_before": t.pre, "earlier_changes_of_the_table": ep % 3,
+						"failing_statement": f.sql, "error": fmt.Sprint(err), "then": "a successful UPDATE and COMMIT", "read_back_through": load,
+						"session_table_before_commit": saw.dump(withHeader)}
+					if e != nil {
+						rp["read_back_error"] = e.Error()
+					} else {
+						rp["table_read_back"] = got.dump(withHeader)
+					}
+					o.Law("committed_file_is_what_the_session_saw", rp)
+					return
+				}
 			}
 			a, _ := os.ReadFile(filepath.Join(dirA, t.file))
 			b, _ := os.ReadFile(filepath.Join(dirB, t.file))
@@ -4051,6 +4482,91 @@ func FixedAddWitness(g *hc.Gen, o *hc.Out, root string) {
 			"header_in_session": inSession, "file_after_commit": string(b)})
 	} else {
 		o.Count("corpus:fixed_add_witness_repaired")
+	}
+}
+
+// UsingJoinCorpus (c05, first on every run): multi-table UPDATE and DELETE over `A … JOIN B USING (…)` and NATURAL joins —
+// INNER / LEFT / RIGHT / FULL; one and several join columns, written in table order and not; the join column FIRST, in the
+// MIDDLE and LAST in a table (A = id, x, k, y, m;  B = m, p, k, q, id; common: id, k, m); the SET columns BEFORE and AFTER
+// the join columns in their table (every column of the target that is no join column is SET in one statement, each to a
+// value that names the column); the target on either side or both.  joinViews moves the merged columns to the front of
+// the joined view and drops both originals: a column's position in the joined view says nothing about its position in
+// its table.  Every statement is followed by ROLLBACK.
+func UsingJoinCorpus(g *hc.Gen, o *hc.Out, root string) {
+	rowsA := [][]int{{0, 100, 0, 200, 10}, {1, 101, 1, 201, 11}, {2, 102, 2, 202, 12}, {3, 103, 3, 203, 13}, {4, 104, 4, 204, 14}}
+	rowsB := [][]int{{10, 300, 0, 400, 0}, {11, 301, 1, 401, 1}, {99, 302, 2, 402, 2}, {13, 303, 7, 403, 3}, {14, 304, 8, 404, 5}}
+	r := newFixedRunner(g, o, root, "corpus-using", []fixedTab{
+		{"f1", true, []string{"id", "x", "k", "y", "m"}, rowsA}, {"m2", false, []string{"m", "p", "k", "q", "id"}, rowsB},
+	})
+	r.OnlyFailureLaws = false
+	r.dropTwin()
+	defer r.Close()
+	a, b := r.Tabs[0], r.Tabs[1]
+	usings := [][]string{{"k"}, {"m"}, {"id"}, {"k", "m"}, {"m", "k"}, {"m", "id", "k"}, nil} // nil = NATURAL
+	for _, kind := range []string{"inner", "left", "right", "full"} {
+		for ui, U := range usings {
+			natural := U == nil
+			if natural {
+				U = commonCols(a, b)
+			}
+			uj := mkUsing(a, b, kind, natural, U, ui%2 == 1)
+			for _, tabs := range [][]*Tab{{a}, {b}, {a, b}, {b, a}} {
+				var tn []string
+				for _, t := range tabs {
+					tn = append(tn, t.Name)
+				}
+				// WHERE: everything / only the joined records in which every target has a record
+				guard := True()
+				for i, t := range tabs {
+					for _, c := range t.Cols {
+						if !inList(c, U) {
+							e := Not(IsNull(Col(t.Name, c, true)))
+							if i == 0 {
+								guard = e
+							} else {
+								guard = Bin("AND", "and", guard, e)
+							}
+							break
+						}
+					}
+				}
+				for wi, wh := range []Ex{True(), guard} {
+					var ss, st []string
+					for _, t := range tabs {
+						for ci, c := range t.Cols {
+							if inList(c, U) || c == "id" {
+								continue
+							}
+							e := Bin("+", "+", Col(t.Name, c, true), Int(1000*(ci+1)))
+							ss = append(ss, t.Name+"."+c+" = "+e.SQL)
+							st = append(st, t.Name+" "+c+" "+e.Tok)
+						}
+					}
+					u := &Stmt{Kind: "updatem", Targets: tn, Wrap: "plain", Outer: "using:" + kind}
+					u.SQL = fmt.Sprintf("UPDATE %s SET %s FROM %s WHERE %s", strings.Join(tn, ", "), strings.Join(ss, ", "), uj.fromSQL, wh.SQL)
+					u.Op = fmt.Sprintf("updateu %d %s %s %d %s %s", len(tn), strings.Join(tn, " "), uj.tok, len(st), strings.Join(st, " "), wh.Tok)
+					stmts := []*Stmt{u}
+					if wi == 0 && ui%2 == 0 {
+						d := &Stmt{Kind: "deletem", Targets: tn, Wrap: "plain", Outer: "using:" + kind}
+						d.SQL = fmt.Sprintf("DELETE %s FROM %s WHERE %s", strings.Join(tn, ", "), uj.fromSQL, wh.SQL)
+						d.Op = fmt.Sprintf("deleteu %d %s %s %s", len(tn), strings.Join(tn, " "), uj.tok, wh.Tok)
+						stmts = append(stmts, d)
+					}
+					for _, st := range stmts {
+						out := r.Exec(st, 0)
+						o.Count("corpus:using_join:" + st.Kind)
+						res := "ok"
+						if out.Err != nil {
+							res = fmt.Sprintf("E%d", ErrNum(out.Err))
+						}
+						o.NonTrivial(fmt.Sprintf("using:%s:%s:%d:%s:u%d:w%d:%s", st.Kind, kind, len(tn), tn[0], ui, wi, res))
+						if len(Marks(r.Pr)) > 2 {
+							r.Rollback()
+						}
+					}
+				}
+			}
+		}
 	}
 }
 
